@@ -16,7 +16,7 @@ import vcommon
 from vcommon import VERIF
 
 PROPS = ["Bee2V/C01/Props.lean"]
-for _f in ("PropsModes", "PropsStream", "PropsAead", "PropsWbl", "PropsFmt", "PropsLcl", "PropsSpec", "PropsChunk", "PropsFmt2", "PropsPoly", "PropsSpecHash", "PropsTag", "PropsFmt3", "PropsWblR"):
+for _f in ("PropsModes", "PropsStream", "PropsAead", "PropsWbl", "PropsFmt", "PropsLcl", "PropsSpec", "PropsChunk", "PropsFmt2", "PropsPoly", "PropsSpecHash", "PropsTag", "PropsFmt3", "PropsWblR", "PropsLen"):
     if os.path.exists(os.path.join(VERIF, "lean", "Bee2V", "C01", _f + ".lean")) and _f not in os.environ.get("C01_SKIP_PROPS", "").split(","):
         PROPS.append("Bee2V/C01/%s.lean" % _f)
 
